@@ -50,6 +50,8 @@ def run(ctx):
     corner_table(ctx)
     degenerate(ctx)
     save_restore(ctx)
+    clamp_after_render(ctx)
+    direction_by_determinant(ctx)
     plumbing(ctx)
     transformed_selection(ctx)
 
@@ -390,6 +392,41 @@ def degenerate(ctx):
         got, conj = zero_tests(ctx, r, rets[0].value)
         alt = {"self.rx", "self.ry"} if cname == "_RoundShape" else want
         ctx.ob("R06.3", "%s.is_degenerate" % cname, (want <= got or alt <= got) and not conj, "zero tests (disjunctive): %s" % sorted(got), r.lineno, msg)
+
+
+def direction_by_determinant(ctx):
+    """A transformed circle/ellipse is traversed the other way round exactly when the matrix reverses orientation, i.e. when its
+    determinant is negative.  The product of the two diagonal entries has that sign only while the off-diagonal entries are
+    zero: matrix(0 1 1 0 0 0) is a reflection with a = d = 0."""
+    fn = ctx.fn("_RoundShape.segments", "R06.5")
+    flips = [st for st in stmts_in(fn.body) if isinstance(st, ast.If) and any(isinstance(a, ast.Assign) and isinstance(a.value, ast.UnaryOp) and isinstance(a.value.op, ast.USub) for a in st.body)]
+    ctx.need(len(flips) == 1, "R06.5", "_RoundShape.segments: direction flip not found")
+    t = flips[0].test
+    src = ast.unparse(t)
+    uses_det = "determinant" in {n.attr for n in ast.walk(t) if isinstance(n, ast.Attribute)} or \
+        any(isinstance(b, ast.BinOp) and isinstance(b.op, ast.Sub) and isinstance(b.left, ast.BinOp) and isinstance(b.right, ast.BinOp) for b in ast.walk(t))
+    diag_only = {"value_scale_x", "value_scale_y"} <= {n.attr for n in ast.walk(t) if isinstance(n, ast.Attribute)} and not uses_det
+    ctx.ob("R06.5", "_RoundShape.segments[direction reversed iff the determinant is negative]", uses_det and not diag_only, src[:100], flips[0].lineno,
+           "the sign of a*d is the sign of the determinant only without rotation/shear: under matrix(0 1 1 0 0 0) or scale(-1,1) rotate(90) the ellipse is traversed the wrong way round")
+
+
+def clamp_after_render(ctx):
+    """_validate_rect clamps rx/ry to half the sides inside `try: ... except ValueError: pass`: with a unit or percentage still
+    unresolved the comparison raises and the clamp is skipped.  Rect.render is where those lengths get their values; the clamp
+    has to happen (again) after that, or a rect whose radius or side carries a unit is never clamped."""
+    vr = ctx.fn("Rect._validate_rect", "R06.2")
+    skipped = any(isinstance(t, ast.Try) and any(isinstance(c, ast.Call) and call_name(c) == "min" for st in t.body for c in ast.walk(st))
+                  and any(all(isinstance(x, ast.Pass) for x in h.body) for h in t.handlers) for t in ast.walk(vr))
+    rn = ctx.fn("Rect.render", "R06.2")
+    order = {id(st): k for k, st in enumerate(stmts_in(rn.body))}
+    resolves = [st for st in stmts_in(rn.body) if isinstance(st, ast.Assign) and any(isinstance(c, ast.Call) and isinstance(c.func, ast.Attribute) and c.func.attr == "value" for c in ast.walk(st.value))]
+    ctx.need(bool(resolves), "R06.2", "Rect.render: length resolution not found")
+    again = [st for st in stmts_in(rn.body) if isinstance(st, ast.Expr) and isinstance(st.value, ast.Call) and attr_chain(st.value.func) == ["self", "_validate_rect"]]
+    clamps = [st for st in stmts_in(rn.body) if any(isinstance(c, ast.Call) and call_name(c) == "min" for c in ast.walk(st))]
+    after = [st for st in again + clamps if order[id(st)] > max(order[id(r)] for r in resolves)]
+    ctx.ob("R06.2", "Rect.render[radii clamped once the lengths are resolved]", (not skipped) or bool(after),
+           "clamp in _validate_rect is skipped on ValueError: %s; clamp after resolution in render: %s" % (skipped, bool(after)), rn.lineno,
+           "<rect width=\"40\" height=\"40\" rx=\"1in\"/> keeps rx = 96: the clamp to half the side ran before the unit was resolved and was skipped")
 
 
 def save_restore(ctx, rule="R06.4"):
